@@ -9,7 +9,7 @@ from pgpy.packet.subpackets.types import Header as SPHeader
 from pgpy.packet.fields import String2Key
 from pgpy.constants import String2KeyType
 
-FUNCTIONS_ENCODED = ['pgpy.types.Header.encode_length', 'pgpy.types.Header.length_bin', 'pgpy.types.Header.llen',
+FUNCTIONS_ENCODED = ['pgpy.packet.packets.PubKeyV4.created / LiteralData.mtime / CreationTime.created (time codecs)', 'pgpy.packet.packets.SignatureV4.update_hlen', 'pgpy.packet.fields.SubPackets.update_hlen', 'pgpy.types.Header.encode_length', 'pgpy.types.Header.length_bin', 'pgpy.types.Header.llen',
                      'pgpy.types.PGPObject.int_to_bytes', 'pgpy.types.PGPObject.bytes_to_int',
                      'pgpy.packet.types.Header.__bytearray__', 'pgpy.packet.types.Header.parse',
                      'pgpy.packet.types.Header.tag_int', 'pgpy.packet.subpackets.types.Header.parse',
@@ -364,7 +364,10 @@ def time_codec(field: int, zi: int, si: int) -> bool:
         if si == k:
             t = k
     with native():
-        octs, back = _time_field(f, ZONES[z], STAMPS[t])
+        try:
+            octs, back = _time_field(f, ZONES[z], STAMPS[t])
+        except (TypeError, ValueError):
+            return ZONES[z] is None          # refusing naive values would be fine; zone-aware ones must be accepted
         return bytes(octs) == _t4(STAMPS[t]) and back == datetime.fromtimestamp(STAMPS[t], timezone.utc)
 
 
